@@ -64,7 +64,7 @@ def build_array(case):
     tf = lay.get("time", "f4")
     fields = [("pitch", lay.get("pitch", "i4"))]
     for u in case["units"]:
-        ty = "i4" if u in INT_UNITS else tf
+        ty = lay.get("tint", "i4") if u in INT_UNITS else tf
         fields += [("onset_" + u, ty), ("duration_" + u, ty)]
     if case["has_vel"]:
         fields.append(("velocity", lay.get("vel", "i4")))
@@ -117,8 +117,75 @@ def roll_kwargs(case):
     kw["time_div"] = td
     kw["pitch_margin"] = o["pitch_margin"]
     kw["time_margin"] = o["time_margin"]
-    kw["end_time"] = None if o["end_time"] is None else float(fr(o["end_time"]))
+    if o.get("margin_kind") == "np":      # numpy integers where Python integers are documented
+        kw["pitch_margin"], kw["time_margin"] = np.int64(o["pitch_margin"]), np.int32(o["time_margin"])
+    if o.get("bool_kind") == "np":
+        for k in BOOL_OPTS:
+            kw[k] = np.bool_(kw[k])
+    kw["end_time"] = end_time_object(o)
     return kw
+
+
+END_KINDS = ("float", "int", "np64", "np32", "npint", "arr0", "arr0i")
+
+
+def end_time_object(o):
+    """end_time as the kind of number the case asks for: Python float / int, numpy float64 / float32 / int64
+    scalar, 0-d float / integer array (what np.asarray(x) gives).  The value is the same exact rational."""
+    import numpy as np
+
+    if o["end_time"] is None:
+        return None
+    e = fr(o["end_time"])
+    k = end_kind_or_float(e, o.get("end_time_kind", "float"))
+    return {"float": lambda: float(e), "int": lambda: int(e), "np64": lambda: np.float64(float(e)),
+            "np32": lambda: np.float32(float(e)), "npint": lambda: np.int64(int(e)),
+            "arr0": lambda: np.array(float(e)), "arr0i": lambda: np.array(int(e))}[k]()
+
+
+def end_kind_or_float(e, k):
+    """the kind, or 'float' when the value cannot be held exactly by that kind."""
+    import numpy as np
+
+    if k in ("int", "npint", "arr0i") and e.denominator != 1:
+        return "float"
+    if k == "np32" and F(float(np.float32(float(e)))) != e:
+        return "float"
+    return k
+
+
+def add_kinds(rng, case):
+    """the same numbers as other kinds of number (a quarter of the cases each): end_time, margins, booleans."""
+    o = case["opts"]
+    if o.get("end_time") is not None and rng.random() < 0.3:
+        k = end_kind_or_float(fr(o["end_time"]), rng.choice(END_KINDS[1:]))
+        if k != "float":
+            o["end_time_kind"] = k
+    if rng.random() < 0.15:
+        o["margin_kind"] = "np"
+    if rng.random() < 0.15:
+        o["bool_kind"] = "np"
+    return case
+
+
+def narrow_int_columns(rng, case):
+    """integer unit columns (div / tick) of another width than i4 when every value fits (the statement fixes no width)."""
+    ks = [k for k, u in enumerate(case["units"]) if u in INT_UNITS]
+    if not ks or not case.get("layout") or rng.random() < 0.4:
+        return
+    vals = [int(fr(x)) for r in case["rows"] for k in ks for x in r["t"][k]]
+    lo, hi = min(vals), max(vals)
+    fits = [t for t, (a, b) in (("i1", (-128, 127)), ("u1", (0, 255)), ("i2", (-2 ** 15, 2 ** 15 - 1)), ("u2", (0, 2 ** 16 - 1)), ("i8", (-2 ** 62, 2 ** 62)))
+            if a <= lo and hi <= b]
+    if fits:
+        t = case["layout"]["tint"] = rng.choice(fits)
+        # ... and pitch and velocity columns of that very width (an all-int8 / all-uint8 array: nothing in it is wider)
+        if t in ("i1", "u1") and rng.random() < 0.7:
+            top = 127 if t == "i1" else 255
+            if all(0 <= r["pitch"] <= top for r in case["rows"]):
+                case["layout"]["pitch"] = t
+            if all(0 <= r["vel"] <= top for r in case["rows"]):
+                case["layout"]["vel"] = t
 
 
 def runs_of_dense(d):
@@ -142,39 +209,64 @@ def runs_of_dense(d):
     return out
 
 
-def run_impl_roll(case):
+def call_roll(target, case):
+    """compute_pianoroll(target, options of the case) -> (what was observed, the roll as returned, the index rows as
+    returned).  The arguments are the caller's: a note array or a 0-d end_time array changed by the call is reported."""
     import numpy as np
     import partitura.utils.music as M
 
-    na = build_object(case["object"])[0] if case.get("object") else build_array(case)
+    kw = roll_kwargs(case)
+    et = kw["end_time"]
+    et0 = et.copy() if isinstance(et, np.ndarray) else None
+    snap = target.tobytes() if isinstance(target, np.ndarray) else None
+
+    def arguments_changed():
+        if et0 is not None and not (et.shape == et0.shape and bool(np.all(et == et0))):
+            return "the call changed the end_time object it was given (a 0-d array) from %r to %r" % (et0.tolist(), et.tolist())
+        if snap is not None and target.tobytes() != snap:
+            return "the call changed the note array it was given"
+        return None
+
     try:
         with warnings.catch_warnings():
             warnings.simplefilter("ignore")
-            res = M.compute_pianoroll(na, **roll_kwargs(case))
+            res = M.compute_pianoroll(target, **kw)
     except Exception as e:
         # a refusal; whether refusing is acceptable is the judge's business (the statement speaks of
         # no exception class, so the class is recorded but not demanded)
-        return {"status": "err", "exc": type(e).__name__, "msg": str(e)[:200]}
-    idx = None
+        ch = arguments_changed()
+        if ch:
+            return {"status": "crash", "msg": ch}, None, None
+        return {"status": "err", "exc": type(e).__name__, "msg": str(e)[:200]}, None, None
+    ch = arguments_changed()
+    if ch:
+        return {"status": "crash", "msg": ch}, None, None
+    idx = raw_idx = None
     if case["opts"]["return_idxs"]:
         if not (isinstance(res, (tuple, list)) and len(res) == 2):
-            return {"status": "crash", "msg": "return_idxs=True did not return (roll, idx)"}
-        res, idx = res
-        idx = np.asarray(idx)
+            return {"status": "crash", "msg": "return_idxs=True did not return (roll, idx)"}, None, None
+        res, raw_idx = res
+        idx = np.asarray(raw_idx)
         if idx.ndim != 2 or idx.shape[1] < 3 or not np.all(idx == np.round(idx)):
-            return {"status": "crash", "msg": "index rows are not whole-number rows (row, onset, offset[, pitch]): shape %s" % (idx.shape,)}
+            return {"status": "crash", "msg": "index rows are not whole-number rows (row, onset, offset[, pitch]): shape %s" % (idx.shape,)}, None, None
         idx = [[int(x) for x in row] for row in idx]
     elif isinstance(res, (tuple, list)):
-        return {"status": "crash", "msg": "return_idxs=False returned a tuple"}
+        return {"status": "crash", "msg": "return_idxs=False returned a tuple"}, None, None
     # sparse (any format) or dense, any numeric dtype: only the VALUES are the statement's business
     d = np.asarray(res.toarray() if hasattr(res, "toarray") else res)
     if d.ndim != 2:
-        return {"status": "crash", "msg": "roll is not 2-dimensional: shape %s" % (d.shape,)}
+        return {"status": "crash", "msg": "roll is not 2-dimensional: shape %s" % (d.shape,)}, None, None
     if d.dtype.kind not in "iub":
         if d.dtype.kind != "f" or not np.all(d == np.round(d)):
-            return {"status": "crash", "msg": "roll holds values that are not whole numbers (dtype %s)" % d.dtype}
+            return {"status": "crash", "msg": "roll holds values that are not whole numbers (dtype %s)" % d.dtype}, None, None
     d = d.astype(np.int64)
-    return {"status": "ok", "shape": [int(d.shape[0]), int(d.shape[1])], "runs": [list(r) for r in runs_of_dense(d)], "idx": idx}
+    return ({"status": "ok", "shape": [int(d.shape[0]), int(d.shape[1])], "runs": [list(r) for r in runs_of_dense(d)], "idx": idx},
+            res, raw_idx)
+
+
+def run_impl_roll(case):
+    na = build_object(case["object"])[0] if case.get("object") else build_array(case)
+    return call_roll(na, case)[0]
 
 
 # ----------------------------------------------------------------------------
@@ -514,6 +606,8 @@ def gen_roll_case(rng, small=False):
     if rng.random() < 0.015:
         rng.choice(case["rows"])["pitch"] = rng.choice([128, 130, -1])
     case["opts"]["end_time"] = choose_end_time(rng, case)
+    narrow_int_columns(rng, case)
+    add_kinds(rng, case)
     return case
 
 
@@ -580,15 +674,7 @@ def build_object(spec):
                 return pps[0], pps[0].note_array()
             perf = P.Performance(id="perf", performedparts=pps)
             return perf, perf.note_array()
-        parts = []
-        for k, ps in enumerate(spec["parts"]):
-            part = S.Part("P%d" % k, quarter_duration=ps["qd"])
-            part.add(S.TimeSignature(ps["ts"][0], ps["ts"][1]), 0)
-            for i, (pitch, a, b) in enumerate(ps["notes"]):
-                step, alter = STEPS[pitch % 12]
-                part.add(S.Note(step=step, octave=pitch // 12 - 1, alter=alter, voice=1 + i % 2, id="p%dn%d" % (k, i)), a, b)
-            S.add_measures(part)
-            parts.append(part)
+        parts = [build_part(ps, k) for k, ps in enumerate(spec["parts"])]
         if ty == "part":
             return parts[0], parts[0].note_array()
         if ty == "score":
@@ -655,6 +741,7 @@ def gen_object_case(rng):
     if ty in ("score", "partgroup", "partlist"):
         case["opts"]["return_idxs"] = False    # the order of the rows of a merged note array is not the roll's business
     case["opts"]["end_time"] = choose_end_time(rng, case)
+    add_kinds(rng, case)
     return case
 
 
@@ -741,14 +828,14 @@ def shrink_roll(case, pred):
 WITH_COQ = True   # False when Props/C13.v did not build: the direct oracles still run
 
 
-def coq_failing_or_empty(ctx, name, terms, checker, shard, defs=""):
+def coq_failing_or_empty(ctx, name, terms, checker, shard, defs="", imports="From PV Require Import Model.C13 Model.C13_Api."):
     """ctx.coq_failing, except that an empty case list (every case already failed the direct oracle)
     is not handed to Coq (an untyped empty list literal does not elaborate)."""
     if not terms or not WITH_COQ:
         return None
     t0 = time.time()
     try:
-        return ctx.coq_failing(name, "From PV Require Import Model.C13 Model.C13_Api.", defs, terms, checker, shard=shard)
+        return ctx.coq_failing(name, imports, defs, terms, checker, shard=shard)
     finally:
         ctx.log("coq %s: %d cases, %.1fs" % (name, len(terms), time.time() - t0))
 
@@ -805,8 +892,7 @@ def pc_kwargs(case):
     o = case["opts"]
     return dict(normalize=o["normalize"], time_unit=o["time_unit"], time_div=o["time_div"], onset_only=o["onset_only"],
                 note_separation=o["note_separation"], time_margin=o["time_margin"], return_idxs=o["return_idxs"],
-                remove_silence=o["remove_silence"], end_time=None if o["end_time"] is None else float(fr(o["end_time"])),
-                binary=o["binary"])
+                remove_silence=o["remove_silence"], end_time=end_time_object(o), binary=o["binary"])
 
 
 def to_simple_fraction(x):
@@ -817,21 +903,37 @@ def to_simple_fraction(x):
     return f
 
 
-def run_impl_pc(case):
+def run_impl_pc(case, na=None, raw=None):
+    """na: the (live) array to call on, default a new one built from the case; raw: a list that receives the
+    objects returned."""
     import numpy as np
     import partitura.utils.music as M
 
-    na = build_array(case)
+    na = build_array(case) if na is None else na
+    snap = na.tobytes()
+    kw = pc_kwargs(case)
+    et = kw["end_time"]
+    et0 = et.copy() if isinstance(et, np.ndarray) else None
     try:
         with warnings.catch_warnings():
             warnings.simplefilter("ignore")
-            res = M.compute_pitch_class_pianoroll(na, **pc_kwargs(case))
+            res = M.compute_pitch_class_pianoroll(na, **kw)
     except Exception as e:
-        return {"status": "err", "exc": type(e).__name__, "msg": str(e)[:200]}
+        res = e
+    if na.tobytes() != snap:
+        return {"status": "crash", "msg": "the call changed the note array it was given"}
+    if et0 is not None and not bool(np.all(et == et0)):
+        return {"status": "crash", "msg": "the call changed the end_time object it was given (a 0-d array) from %r to %r" % (et0.tolist(), et.tolist())}
+    if isinstance(res, Exception):
+        return {"status": "err", "exc": type(res).__name__, "msg": str(res)[:200]}
     idx = None
     if case["opts"]["return_idxs"]:
         res, idx = res
+        if raw is not None:
+            raw.append(("idx", idx))
         idx = [[int(x) for x in row] for row in np.asarray(idx)]
+    if raw is not None:
+        raw.append(("pc", res))
     d = np.asarray(res.toarray() if hasattr(res, "toarray") else res)
     if d.ndim != 2 or d.shape[0] != 12:
         return {"status": "crash", "msg": "pitch-class roll has shape %s" % (d.shape,)}
@@ -924,6 +1026,10 @@ def gen_pc_case(rng):
     case["opts"] = o
     tmp = full_case_of_pc(case)
     case["opts"]["end_time"] = choose_end_time(rng, tmp)
+    if case["opts"]["end_time"] is not None and rng.random() < 0.3:
+        k = end_kind_or_float(fr(case["opts"]["end_time"]), rng.choice(END_KINDS[1:]))
+        if k != "float":
+            case["opts"]["end_time_kind"] = k
     return case
 
 
@@ -934,6 +1040,12 @@ def c_pcopts(case):
     et = "None" if o["end_time"] is None else "(Some %s)" % cq(fr(o["end_time"]))
     return "(mkPcopts %s %s %s %s %s %s %s %s %s)" % (cbool(o["normalize"]), tu, td, cbool(o["onset_only"]), cbool(o["note_separation"]),
                                                       cz(o["time_margin"]), cbool(o["remove_silence"]), et, cbool(o["binary"]))
+
+
+def c_obs_pc(got):
+    if got["status"] != "ok":
+        return "None"
+    return "(Some (%s, %s, %s))" % (cz(got["cols"]), clist([ctuple([cz(r), cz(a), cz(b), cq(fr(q))]) for r, a, b, q in got["runs"]]), c_idx(got["idx"]))
 
 
 def run_pc_stream(ctx, n):
@@ -964,10 +1076,7 @@ def run_pc_stream(ctx, n):
         if got["status"] == "ok" and spec_pc(case)["status"] == "err":
             ctx.count("pc:outside_statement_shown")
             continue
-        if got["status"] == "ok":
-            ob = "(Some (%s, %s, %s))" % (cz(got["cols"]), clist([ctuple([cz(r), cz(a), cz(b), cq(fr(q))]) for r, a, b, q in got["runs"]]), c_idx(got["idx"]))
-        else:
-            ob = "None"
+        ob = c_obs_pc(got)
         terms.append("((%s, %s, %s) : pcopts * narr * obs_pc)" % (c_pcopts(case), c_narr(case), ob))
         kept.append((case, got))
     if kept:
@@ -1009,7 +1118,8 @@ def gen_decode_case(rng):
             c += ln  # the next run may touch this one (same or different value)
     return {"kind": "decode", "rows": rows, "cols": cols, "cells": sorted([r, c, v] for (r, c), v in nz.items()),
             "time_div": rng.choice([1, 2, 4, 8, 8, 16, 3, 10]), "time_unit": rng.choice(["sec", "beat", "quarter", "div"]),
-            "container": rng.choice(["dense", "dense", "csc", "csr"]), "dtype": rng.choice(["int64", "int64", "int32", "int16", "int8"])}
+            "container": rng.choice(["dense", "dense", "csc", "csr"]), "dtype": rng.choice(["int64", "int64", "int32", "int16", "int8"]),
+            "time_div_kind": rng.choice(["int", "int", "int", "np", "np8", "npu8"])}
 
 
 def build_roll(case):
@@ -1022,11 +1132,13 @@ def build_roll(case):
     return {"dense": lambda x: x, "csc": csc_matrix, "csr": csr_matrix}[case["container"]](d)
 
 
-def run_impl_decode(case):
+def run_impl_decode(case, roll=None):
+    import numpy as np
     import partitura.utils.music as M
 
+    td = {"int": int, "np": np.int64, "np8": np.int8, "npu8": np.uint8}[case.get("time_div_kind", "int")](case["time_div"])
     try:
-        na = M.pianoroll_to_notearray(build_roll(case), time_div=case["time_div"], time_unit=case["time_unit"])
+        na = M.pianoroll_to_notearray(build_roll(case) if roll is None else roll, time_div=td, time_unit=case["time_unit"])
     except Exception as e:
         return {"status": "err", "exc": type(e).__name__, "msg": str(e)[:200]}
     return read_notearray(na, case["time_unit"], case["time_div"])
@@ -1290,6 +1402,574 @@ def run_decode_stream(ctx, n_random, n_round):
         ctx.violation("model and implementation disagree on the round trip roll -> note array", {"case": kept[i][0], "got": kept[i][1]})
 
 
+
+# ----------------------------------------------------------------------------
+# stream 4: HISTORIES -- state carried between calls.
+# One process, live objects: a note array A (and often a second one, B, of the same layout and row count), sometimes
+# a score-like or performance-like object; operations
+#   roll / pc      call compute_pianoroll / compute_pitch_class_pianoroll on the live array (or a reversed / strided
+#                  VIEW of it) or on the live object; half of the calls repeat the options of an earlier call
+#   decode k       pianoroll_to_notearray on the k-th result still held, as it is NOW (the caller may have written into it)
+#   set / reverse  edit the live array IN PLACE (one value; the row order)
+#   switch         go on with the other array;  replace: a NEW array object takes the place of the current one
+#   write k        the caller overwrites the k-th result held (roll cells, index rows, pitch-class values) in place
+#   obj_edit       edit the live object through its API (add / remove a note, replace a part of a
+#                  Score / group / list; velocity / channel of a performed note, append / delete one, replace a part)
+# Every observation is judged against the CURRENT state only: the direct oracle over the current rows (arrays), or
+# over the note array of an object BUILT ANEW from the current description (objects); the arguments must come back
+# unchanged; every result still held must keep the value it had (or was given by the caller) whatever is called or
+# edited afterwards.
+
+
+def jcopy(x):
+    return json.loads(json.dumps(x))
+
+
+def dense_of(x):
+    import numpy as np
+
+    return np.asarray(x.toarray() if hasattr(x, "toarray") else x)
+
+
+def build_part(ps, k):
+    import partitura.score as S
+
+    part = S.Part("P%d" % k, quarter_duration=ps["qd"])
+    part.add(S.TimeSignature(ps["ts"][0], ps["ts"][1]), 0)
+    for i, (pitch, a, b) in enumerate(ps["notes"]):
+        step, alter = STEPS[pitch % 12]
+        part.add(S.Note(step=step, octave=pitch // 12 - 1, alter=alter, voice=1 + i % 2, id="p%dn%d" % (k, i)), a, b)
+    if ps.get("bars"):
+        # whole bars laid out independently of the notes (the beat map reads the first measure: a history that adds
+        # or removes notes must not move the measures, and a part built anew from the description must have the same)
+        bar = ps["qd"] * 4 * ps["ts"][0] // ps["ts"][1]
+        for i in range(ps["bars"]):
+            part.add(S.Measure(number=i + 1), i * bar, (i + 1) * bar)
+    else:
+        S.add_measures(part)
+    return part
+
+
+def build_ppart(notes, ppq):
+    import partitura.performance as P
+
+    return P.PerformedPart([dict(midi_pitch=n[0], note_on=float(fr(n[1])), note_off=float(fr(n[2])), velocity=n[3], channel=n[4], track=n[5])
+                            for n in notes], ppq=ppq, mpq=500000)
+
+
+class Hist:
+    def __init__(self, init):
+        self.arrs = [jcopy(c) for c in init["arrs"]]
+        self.nas = [build_array(c) for c in self.arrs]
+        self.cur = 0
+        self.spec = jcopy(init.get("obj"))
+        self.obj = None
+        self.ids = []
+        self.fresh = 0
+        if self.spec:
+            with warnings.catch_warnings():
+                warnings.simplefilter("ignore")
+                self.obj = build_object(self.spec)[0]
+            if "parts" in self.spec:
+                self.ids = [["p%dn%d" % (k, i) for i in range(len(ps["notes"]))] for k, ps in enumerate(self.spec["parts"])]
+        self.kept = []       # results held by the caller: {"kind": roll / idx / pc, "obj": live, "snap": value it must have}
+        self.fail = []       # (op number, text)
+        self.log = []        # (op number, what was observed) for the replay
+        self.skipped = 0
+        self.obs = []        # judged roll observations on OBJECTS (case, got) for the correspondence
+        self.events = []     # the history on the arrays as events of the machine Model/C13_Hist.v (Coq terms)
+        self.mobj = 0        # number of result objects the machine has created
+        self.init_terms = [c_narr(c) for c in self.arrs]
+
+    def live_parts(self):
+        ty = self.spec["type"]
+        return [self.obj] if ty == "part" else self.obj.parts if ty == "score" else self.obj.children if ty == "partgroup" else self.obj
+
+    def live_pparts(self):
+        return [self.obj] if self.spec["type"] == "ppart" else self.obj.performedparts
+
+    def keep(self, kind, obj, m=None):
+        import numpy as np
+
+        if obj is None:
+            return
+        self.kept.append({"kind": kind, "obj": obj, "snap": np.array(dense_of(obj), copy=True), "m": m})
+        del self.kept[:-5]
+
+    def check_kept(self, i):
+        import numpy as np
+
+        for x in self.kept:
+            d = dense_of(x["obj"])
+            if d.shape != x["snap"].shape or not np.array_equal(d, x["snap"]):
+                self.fail.append((i, "a result returned earlier (%s) changed its value without the caller writing into it" % x["kind"]))
+                x["snap"] = np.array(d, copy=True)
+
+
+def hist_step(h, i, op):
+    import numpy as np
+
+    k = op["op"]
+    with warnings.catch_warnings():
+        warnings.simplefilter("ignore")
+        if k in ("roll", "pc"):
+            if op.get("src") == "obj":
+                if h.obj is None:
+                    return
+                try:
+                    ref = build_object(h.spec)[1]       # built anew from the current description
+                except Exception:
+                    return
+                base = case_of_notearray(ref)
+                target = h.obj
+                if not base["rows"] or not base["units"]:
+                    return
+            else:
+                base = jcopy(h.arrs[h.cur])       # the rows as they are NOW (the description goes on changing)
+                whole = base
+                target = h.nas[h.cur]
+                if k == "roll" and op.get("view") == "rev":
+                    target, base = target[::-1], dict(base, rows=base["rows"][::-1])
+                elif k == "roll" and op.get("view") == "step":
+                    target, base = target[::2], dict(base, rows=base["rows"][::2])
+            o = jcopy(op["opts"])
+            if o["time_unit"] != "auto" and o["time_unit"] not in base["units"]:
+                o["time_unit"] = "auto"
+            case = dict(base, kind=k, opts=o)
+            if not float_safe(case if k == "roll" else full_case_of_pc(case)):
+                h.skipped += 1
+                return
+            if k == "roll":
+                got, raw, raw_idx = call_roll(target, case)
+                why = judge_roll(case, got)
+                h.log.append((i, {"call": "compute_pianoroll", "on": op.get("src", "arr"), "current_rows": base["rows"], "got": got}))
+                m = None
+                if why:
+                    h.fail.append((i, why if why.startswith("compute_pianoroll") else "compute_pianoroll: " + why))
+                elif got["status"] != "crash" and (not domain_edge(case) or got["status"] == "err"):
+                    if op.get("src") == "obj":
+                        h.obs.append((case, got))
+                    else:      # an event of the machine (a view is another array value for the time of the call)
+                        ev = "(ERoll %s %s)" % (c_copts(case), c_obs_roll(got))
+                        h.events += ["(ESet %s)" % c_narr(base), ev, "(ESet %s)" % c_narr(whole)] if op.get("view") else [ev]
+                        m = h.mobj
+                        h.mobj += 1
+                h.keep("roll", raw, m)
+                h.keep("idx", raw_idx, m)
+            else:
+                raw = []
+                got = run_impl_pc(case, na=target, raw=raw)
+                why = judge_pc(case, got)
+                h.log.append((i, {"call": "compute_pitch_class_pianoroll", "current_rows": base["rows"], "got": got}))
+                m = None
+                if why:
+                    h.fail.append((i, "compute_pitch_class_pianoroll: " + why))
+                elif got["status"] == "err" or (got["status"] == "ok" and spec_pc(case)["status"] == "ok"):
+                    h.events.append("(EPc %s %s)" % (c_pcopts(case), c_obs_pc(got)))
+                    m = h.mobj
+                    h.mobj += 1
+                for kind, obj in raw:
+                    h.keep(kind, obj, m)
+        elif k == "decode":
+            rolls = [x for x in h.kept if x["kind"] == "roll"]
+            if not rolls:
+                return
+            x = rolls[op["k"] % len(rolls)]
+            d = np.array(dense_of(x["obj"]), copy=True)
+            if d.ndim != 2 or d.dtype.kind not in "iub":
+                return
+            rr, cc = np.nonzero(d)
+            dcase = {"kind": "decode", "rows": int(d.shape[0]), "cols": int(d.shape[1]),
+                     "cells": sorted([int(r), int(c), int(d[r, c])] for r, c in zip(rr, cc)),
+                     "time_div": op["time_div"], "time_unit": op["time_unit"], "time_div_kind": op.get("time_div_kind", "int"),
+                     "container": "dense", "dtype": "int64"}
+            got = run_impl_decode(dcase, roll=x["obj"])
+            why = judge_decode(dcase, got)
+            h.log.append((i, {"call": "pianoroll_to_notearray", "roll": dcase, "got": got}))
+            if why:
+                h.fail.append((i, why))
+            if not np.array_equal(dense_of(x["obj"]), d):
+                h.fail.append((i, "pianoroll_to_notearray changed the roll it was given"))
+                x["snap"] = np.array(dense_of(x["obj"]), copy=True)
+        elif k == "set":
+            c, na = h.arrs[h.cur], h.nas[h.cur]
+            r = op["row"] % len(c["rows"])
+            f, v = op["field"], op["value"]
+            if f == "pitch":
+                na["pitch"][r] = v
+                c["rows"][r]["pitch"] = v
+            elif f == "vel" and c["has_vel"]:
+                na["velocity"][r] = v
+                c["rows"][r]["vel"] = v
+            elif f == "chan" and c["has_chan"]:
+                na["channel"][r] = v
+                c["rows"][r]["chan"] = v
+            elif f in ("on", "du"):
+                ui = op["unit"] % len(c["units"])
+                u = c["units"][ui]
+                val = F(v) if u in INT_UNITS else F(v, 16)
+                name = ("onset_" if f == "on" else "duration_") + u
+                na[name][r] = int(val) if u in INT_UNITS else float(val)
+                assert F(float(na[name][r])) == val
+                c["rows"][r]["t"][ui][0 if f == "on" else 1] = frs(val)
+            h.events.append("(ESet %s)" % c_narr(c))
+        elif k == "reverse":
+            c, na = h.arrs[h.cur], h.nas[h.cur]
+            na[:] = na[::-1].copy()
+            c["rows"].reverse()
+            h.events.append("(ESet %s)" % c_narr(c))
+        elif k == "switch":
+            if len(h.arrs) > 1:
+                h.cur = (h.cur + 1) % len(h.arrs)
+                h.events.append("ESwitch")
+        elif k == "replace":
+            h.arrs[h.cur] = jcopy(op["case"])
+            h.nas[h.cur] = build_array(h.arrs[h.cur])
+            h.events.append("(ESet %s)" % c_narr(h.arrs[h.cur]))
+        elif k == "write":
+            if not h.kept:
+                return
+            x = h.kept[op["k"] % len(h.kept)]
+            obj = x["obj"]
+            try:
+                if x["kind"] == "roll":
+                    d = dense_of(obj)
+                    if d.shape[0] and d.shape[1]:
+                        obj[op["a"] % d.shape[0], op["b"] % d.shape[1]] = op["v"]
+                        if hasattr(obj, "data") and len(obj.data) and op["v"] % 2:
+                            obj.data[:] = op["v"]
+                elif x["kind"] == "idx":
+                    obj[:] = -op["v"]
+                else:
+                    obj[...] = 0.5
+            except Exception:
+                pass          # not writable: nothing written
+            x["snap"] = np.array(dense_of(obj), copy=True)
+            if x.get("m") is not None:
+                h.events.append("(EWrite %d)" % x["m"])
+        elif k == "obj_edit":
+            if h.obj is None:
+                return
+            hist_obj_edit(h, op)
+    h.check_kept(i)
+
+
+def hist_obj_edit(h, op):
+    import partitura.score as S
+    import partitura.performance as P
+
+    spec, what = h.spec, op["what"]
+    if "parts" in spec:
+        pi = op["part"] % len(spec["parts"])
+        ps = spec["parts"][pi]
+        live = h.live_parts()
+        if what == "add_note":
+            pitch, a, b = op["note"]
+            step, alter = STEPS[pitch % 12]
+            h.fresh += 1
+            nid = "h%d" % h.fresh
+            live[pi].add(S.Note(step=step, octave=pitch // 12 - 1, alter=alter, voice=1, id=nid), a, b)
+            ps["notes"].append([pitch, a, b])
+            h.ids[pi].append(nid)
+        elif what == "remove_note" and len(ps["notes"]) > 1:
+            j = op["j"] % len(ps["notes"])
+            nid = h.ids[pi].pop(j)
+            ps["notes"].pop(j)
+            note = next(n for n in live[pi].iter_all(S.Note) if n.id == nid)
+            live[pi].remove(note)
+        elif what == "replace_part":
+            new = build_part(op["newpart"], pi)
+            ty = spec["type"]
+            if ty == "part":
+                h.obj = new
+            elif ty == "partgroup":
+                h.obj.children[pi] = new
+            else:                      # Score.__setitem__ / list item
+                h.obj[pi] = new
+            spec["parts"][pi] = jcopy(op["newpart"])
+            h.ids[pi] = ["p%dn%d" % (pi, i) for i in range(len(op["newpart"]["notes"]))]
+    elif "pparts" in spec:
+        pi = op["part"] % len(spec["pparts"])
+        notes = spec["pparts"][pi]
+        live = h.live_pparts()[pi]
+        j = op.get("j", 0) % len(notes)
+        if what == "vel":
+            live.notes[j]["velocity"] = op["v"]
+            notes[j][3] = op["v"]
+        elif what == "chan":
+            live.notes[j]["channel"] = op["v"]
+            notes[j][4] = op["v"]
+        elif what == "add_pnote":
+            n = op["note"]
+            h.fresh += 1
+            live.notes.append(P.PerformedNote(dict(id="h%d" % h.fresh, midi_pitch=n[0], note_on=float(fr(n[1])), note_off=float(fr(n[2])),
+                                                   velocity=n[3], channel=n[4], track=n[5])))
+            notes.append(list(n))
+        elif what == "del_pnote" and len(notes) > 1:
+            del live.notes[j]
+            notes.pop(j)
+        elif what == "replace_ppart" and spec["type"] == "performance":
+            h.obj[pi] = build_ppart(op["notes"], spec.get("ppq", 480))
+            spec["pparts"][pi] = jcopy(op["notes"])
+
+
+def run_history(init, ops):
+    h = Hist(init)
+    for i, op in enumerate(ops):
+        try:
+            hist_step(h, i, op)
+        except Exception as e:     # the harness' own operations must not fail; an exception inside a call is caught there
+            h.fail.append((i, "operation %s raised %s: %s" % (op.get("op"), type(e).__name__, str(e)[:200])))
+    return h
+
+
+def gen_array_state(rng, like=None):
+    """an array case without options; like: another one whose layout, units and row count it shares (what a cache
+    keyed by too little cannot tell apart)."""
+    if like is None:
+        nunits = rng.choice([1, 1, 2, 2, 3])
+        units = rng.sample(UNITS, nunits)
+        lay = gen_layout(rng, len(units))
+        c = {"units": units, "has_vel": rng.random() < 0.7, "has_chan": rng.random() < 0.4,
+             "rows": gen_rows(rng, units, n=rng.choice([1, 2, 2, 3, 4, 5, 6]), small=True)}
+        if lay:
+            c["layout"] = lay
+            narrow_int_columns(rng, c)
+    else:
+        c = jcopy(like)
+        c["rows"] = gen_rows(rng, c["units"], n=len(like["rows"]), small=True)
+        if (c.get("layout") or {}).get("tint"):      # the other array's integer width, if these values fit it too
+            vals = [int(fr(x)) for r in c["rows"] for k, u in enumerate(c["units"]) if u in INT_UNITS for x in r["t"][k]]
+            lo, hi = {"i1": (-128, 127), "u1": (0, 255), "i2": (-2 ** 15, 2 ** 15 - 1), "u2": (0, 2 ** 16 - 1), "i8": (-2 ** 62, 2 ** 62)}[c["layout"]["tint"]]
+            if min(vals) < lo or max(vals) > hi:
+                del c["layout"]["tint"]
+    if rng.random() < 0.5:      # all-integer time columns: onsets and durations whole numbers in every unit column
+        for r in c["rows"]:
+            r["t"] = [[frs(F(math.floor(fr(a)))), frs(F(math.ceil(fr(b))))] for a, b in r["t"]]
+    return c
+
+
+def gen_obj_part(rng, pool):
+    qd = rng.choice([1, 2, 4, 4, 8])
+    notes = []
+    for _ in range(rng.randint(1, 5)):
+        a = rng.randint(0, 6 * qd)
+        notes.append([rng.choice(pool), a, a + rng.randint(1, 3 * qd)])
+    return {"qd": qd, "ts": rng.choice([[4, 4], [4, 4], [3, 4], [2, 2], [6, 8]]), "notes": notes, "bars": 6}
+
+
+def gen_pnote(rng, pool):
+    a = F(rng.randint(0, 40), 16)
+    return [rng.choice(pool), frs(a), frs(a + F(rng.randint(1, 24), 16)), rng.randint(1, 127), rng.choice([0, 0, 1, 9, 9, 10]), rng.choice([0, 1, 9])]
+
+
+def gen_history(rng, nops):
+    """(init, ops).  Generated against the description of the state only (never against what the implementation
+    returned), so that the same seed gives the same histories for every tree under test."""
+    A = gen_array_state(rng)
+    arrs = [A]
+    if rng.random() < 0.7:
+        arrs.append(gen_array_state(rng, like=A if rng.random() < 0.7 else None))
+    init = {"arrs": arrs}
+    pool = [rng.randint(21, 108) for _ in range(3)] + [rng.choice([0, 20, 21, 108, 109, 127])]
+    if rng.random() < 0.45:
+        ty = rng.choice(["part", "score", "score", "partgroup", "partlist", "ppart", "performance"])
+        if ty in ("ppart", "performance"):
+            init["obj"] = {"type": ty, "ppq": rng.choice([2, 4, 8]),
+                           "pparts": [[gen_pnote(rng, pool) for _ in range(rng.randint(1, 5))] for _ in range(1 if ty == "ppart" else rng.randint(1, 2))]}
+        else:
+            init["obj"] = {"type": ty, "parts": [gen_obj_part(rng, pool) for _ in range(1 if ty == "part" else rng.randint(1, 3))]}
+    # the description of the state, advanced as the operations are drawn
+    st = Hist.__new__(Hist)
+    st.arrs, st.cur, st.spec = [jcopy(c) for c in arrs], 0, jcopy(init.get("obj"))
+    ops, used = [], {"arr": [], "obj": [], "pc": []}
+    for _ in range(nops):
+        x = rng.random()
+        has_obj = st.spec is not None
+        cur = st.arrs[st.cur]
+        # with an object: the first operation is mostly a call on it, an edit of it is mostly followed by a call on it,
+        # and a quarter of the other operations are edits of it
+        after_edit = bool(ops) and ops[-1]["op"] == "obj_edit"
+        force_obj = has_obj and ((not ops and rng.random() < 0.6) or (after_edit and rng.random() < 0.75))
+        if has_obj and not force_obj and rng.random() < 0.25:
+            x = 0.99
+        if force_obj:
+            x = 0.0
+        if x < 0.36:
+            src = "obj" if force_obj or (has_obj and rng.random() < 0.4) else "arr"
+            if used[src] and rng.random() < 0.55:
+                o = jcopy(rng.choice(used[src]))          # the very options of an earlier call
+            else:
+                if src == "obj":
+                    try:
+                        with warnings.catch_warnings():
+                            warnings.simplefilter("ignore")
+                            base = case_of_notearray(build_object(st.spec)[1])
+                    except Exception:
+                        continue
+                    if not base["rows"] or not base["units"]:
+                        continue
+                else:
+                    base = cur
+                case = dict(base, opts=gen_opts(rng, base["units"]))
+                if selected(case)[0] in INT_UNITS and case["opts"]["time_div"] != "auto":
+                    case["opts"]["time_div"] = rng.choice([1, 1, 2, 4])
+                if src == "obj":
+                    case["opts"]["return_idxs"] = False      # the order of the rows of an object's note array is not the roll's business
+                case["opts"]["end_time"] = choose_end_time(rng, case)
+                add_kinds(rng, case)
+                o = case["opts"]
+                used[src].append(o)
+            op = {"op": "roll", "src": src, "opts": o}
+            if src == "arr" and rng.random() < 0.12:
+                op["view"] = rng.choice(["rev", "step"])
+            ops.append(op)
+        elif x < 0.44:
+            if used["pc"] and rng.random() < 0.5:
+                o = jcopy(rng.choice(used["pc"]))
+            else:
+                go = gen_opts(rng, cur["units"])
+                o = {k: go[k] for k in ("time_unit", "onset_only", "note_separation", "time_margin", "return_idxs", "remove_silence", "binary")}
+                o["time_div"] = rng.choice(["auto", 1, 2, 4])
+                o["normalize"] = rng.random() < 0.6
+                o["end_time"] = None
+                o["end_time"] = choose_end_time(rng, full_case_of_pc(dict(cur, opts=o)))
+                used["pc"].append(o)
+            ops.append({"op": "pc", "opts": o})
+        elif x < 0.52:
+            ops.append({"op": "decode", "k": rng.randrange(8), "time_div": rng.choice([1, 2, 4, 8, 8, 16, 3]), "time_unit": rng.choice(["sec", "beat", "quarter", "div"]),
+                        "time_div_kind": rng.choice(["int", "int", "np", "np8", "npu8"])})
+        elif x < 0.72:
+            f = rng.choice(["pitch", "pitch", "vel", "vel", "chan", "on", "on", "du", "du"])
+            v = {"pitch": rng.choice([rng.randint(21, 108), 20, 21, 108, 109, 0, 127]), "vel": rng.randint(1, 127), "chan": rng.choice([0, 9, 9, 10]),
+                 "on": rng.randint(0, 24), "du": rng.choice([0, 1, 2, 3, 5, 8, 16])}[f]
+            op = {"op": "set", "row": rng.randrange(8), "field": f, "value": v, "unit": rng.randrange(3)}
+            ops.append(op)
+            r = op["row"] % len(cur["rows"])      # keep the description in step
+            if f == "pitch":
+                cur["rows"][r]["pitch"] = v
+            elif f == "vel" and cur["has_vel"]:
+                cur["rows"][r]["vel"] = v
+            elif f == "chan" and cur["has_chan"]:
+                cur["rows"][r]["chan"] = v
+            elif f in ("on", "du"):
+                ui = op["unit"] % len(cur["units"])
+                cur["rows"][r]["t"][ui][0 if f == "on" else 1] = frs(F(v) if cur["units"][ui] in INT_UNITS else F(v, 16))
+        elif x < 0.75:
+            ops.append({"op": "reverse"})
+            cur["rows"].reverse()
+        elif x < 0.84:
+            if len(st.arrs) > 1:
+                ops.append({"op": "switch"})
+                st.cur = (st.cur + 1) % len(st.arrs)
+        elif x < 0.87:
+            new = gen_array_state(rng, like=cur if rng.random() < 0.6 else None)
+            ops.append({"op": "replace", "case": new})
+            st.arrs[st.cur] = jcopy(new)
+        elif x < 0.94 or not has_obj:
+            ops.append({"op": "write", "k": rng.randrange(8), "a": rng.randrange(128), "b": rng.randrange(64), "v": rng.randint(1, 120)})
+        else:
+            if "parts" in st.spec:
+                what = rng.choice(["add_note", "add_note", "remove_note", "remove_note", "replace_part", "replace_part"])
+                op = {"op": "obj_edit", "what": what, "part": rng.randrange(3)}
+                pi = op["part"] % len(st.spec["parts"])
+                ps = st.spec["parts"][pi]
+                if what == "add_note":
+                    a = rng.randint(0, 6 * ps["qd"])
+                    op["note"] = [rng.choice(pool), a, a + rng.randint(1, 3 * ps["qd"])]
+                    ps["notes"].append(op["note"])
+                elif what == "remove_note":
+                    op["j"] = rng.randrange(8)
+                    if len(ps["notes"]) > 1:
+                        ps["notes"].pop(op["j"] % len(ps["notes"]))
+                else:
+                    op["newpart"] = gen_obj_part(rng, pool)
+                    st.spec["parts"][pi] = jcopy(op["newpart"])
+            else:
+                what = rng.choice(["vel", "chan", "chan", "add_pnote", "del_pnote", "replace_ppart"])
+                op = {"op": "obj_edit", "what": what, "part": rng.randrange(2), "j": rng.randrange(8)}
+                pi = op["part"] % len(st.spec["pparts"])
+                notes = st.spec["pparts"][pi]
+                j = op["j"] % len(notes)
+                if what == "vel":
+                    op["v"] = rng.randint(1, 127)
+                    notes[j][3] = op["v"]
+                elif what == "chan":
+                    op["v"] = rng.choice([0, 9, 9, 10])
+                    notes[j][4] = op["v"]
+                elif what == "add_pnote":
+                    op["note"] = gen_pnote(rng, pool)
+                    notes.append(list(op["note"]))
+                elif what == "del_pnote":
+                    if len(notes) > 1:
+                        notes.pop(j)
+                elif st.spec["type"] == "performance":
+                    op["notes"] = [gen_pnote(rng, pool) for _ in range(rng.randint(1, 4))]
+                    st.spec["pparts"][pi] = jcopy(op["notes"])
+            ops.append(op)
+    return init, ops
+
+
+def run_history_stream(ctx, n, nops):
+    t0 = time.time()
+    terms, kept, hterms, hkept = [], [], [], []
+    nviol = nev = 0
+    for _ in range(n):
+        init, ops = gen_history(ctx.rng, ctx.rng.randint(*nops))
+        h = run_history(init, ops)
+        ctx.evaluations += len(h.log)
+        ctx.count("history:histories")
+        ctx.count("history:observations", len(h.log))
+        ctx.count("history:near_tie_skipped", h.skipped)
+        for op in ops:
+            ctx.count("history:op_" + op["op"] + ("_" + op["what"] if op["op"] == "obj_edit" else "") + ("_obj" if op.get("src") == "obj" else ""))
+        if init.get("obj"):
+            ctx.count("history:with_" + init["obj"]["type"])
+        if len(init["arrs"]) > 1:
+            ctx.count("history:two_arrays")
+        if h.fail:
+            nviol += 1
+            if nviol <= 3:
+                small = core.ddmin(ops, lambda sub: bool(run_history(init, sub).fail))
+                hs = run_history(init, small)
+                i, text = (hs.fail or h.fail)[0]
+                ctx.violation("history (state carried between calls), operation %d of %d: %s" % (i + 1, len(small), text),
+                              {"case": {"kind": "history", "init": init, "ops": small}, "failures": [list(f) for f in hs.fail[:5]]})
+            continue
+        if len(h.log) > 1:
+            ctx.nontrivial(json.dumps([init, ops], sort_keys=True))
+        for case, got in h.obs:
+            terms.append(c_roll_case(case, got))
+            kept.append((init, ops, case, got))
+        if h.events:
+            hterms.append("((%s, %s, %s) : narr * narr * list hev)" % (h.init_terms[0], h.init_terms[-1], clist(h.events)))
+            hkept.append((init, ops))
+            nev += sum(1 for e in h.events if e.startswith("(ERoll") or e.startswith("(EPc"))
+    ctx.log("stream history: %d histories, %.1fs" % (n, time.time() - t0))
+    hfail = coq_failing_or_empty(ctx, "history_machine", hterms, "check_history", 60,
+                                 imports="From PV Require Import Model.C13 Model.C13_Hist.")
+    if WITH_COQ and hfail is not None:
+        ctx.obligation("correspondence: the state machine Model.C13_Hist (theorem history_observes_current_state: every observation = the "
+                       "function's value on the array as it is at that moment) run along %d observed histories on note arrays (in-place "
+                       "edits, two arrays, repeated options, views, the caller's writes into results) reproduces all %d observations of "
+                       "compute_pianoroll / compute_pitch_class_pianoroll" % (len(hterms), nev), not hfail, hfail[:5])
+        for i in hfail[:3]:
+            ctx.violation("model (history machine) and implementation disagree on a history of calls and edits",
+                          {"case": {"kind": "history", "init": hkept[i][0], "ops": hkept[i][1]}})
+    if kept:
+        ctx.sample({"history": {"init": kept[0][0], "ops": kept[0][1]}}, limit=7)
+    failing = coq_failing_or_empty(ctx, "history", terms, "check_pianoroll", 300)
+    if not WITH_COQ or failing is None:
+        return
+    ctx.obligation("correspondence: every compute_pianoroll observation on a score / performance OBJECT inside a history (calls interleaved "
+                   "with edits through the object's API: notes added / removed, parts replaced in a Score / group / list / Performance, "
+                   "velocity / channel changed) = Model.C13.compute_pianoroll of the note array of the object built ANEW from its current "
+                   "description, %d observations" % len(terms), not failing, failing[:5])
+    for i in failing[:5]:
+        ctx.violation("model and implementation disagree on an observation inside a history", {"case": kept[i][2], "got": kept[i][3],
+                                                                                                 "history": {"init": kept[i][0], "ops": kept[i][1]}})
+
+
 # ----------------------------------------------------------------------------
 
 
@@ -1312,13 +1992,27 @@ def run(ctx):
                 "shuffled, f8 time columns with off-grid 53-bit values, i8/i2 pitch, i8/u1/f4 velocity, extra fields voice/staff/track); "
                 "time_div as numpy integer; Part / Score / PartGroup / list of Parts / PerformedPart / Performance OBJECTS handed to "
                 "compute_pianoroll and judged against the object's own note_array(); round trips with time margins, drum rows laid over the "
-                "notes, several unit columns, no velocity field, resolution 'auto'.")
+                "notes, several unit columns, no velocity field, resolution 'auto'.  Round 1b (state carried between calls): HISTORIES "
+                "of 5-10 operations in one process on live objects -- one or two note arrays of the same layout and row count (half of them "
+                "with whole-number times in every column), sometimes a Part / Score / PartGroup / list / PerformedPart / Performance: "
+                "calls of compute_pianoroll and compute_pitch_class_pianoroll (55 % with the very options of an earlier call; on reversed / "
+                "strided views), pianoroll_to_notearray on results still held, in-place edits of one value or of the row order, a switch to "
+                "the other array, a new array object, the caller's writes into returned rolls / index rows / pitch-class rolls, edits of "
+                "the object through its API (notes added / removed, a part of a Score / group / list / Performance replaced, velocity / "
+                "channel changed); every observation judged against the CURRENT state only (oracle over the current rows; for objects the "
+                "note array of an object built anew from the current description), arguments must come back unchanged (note array bytes, a "
+                "0-d end_time array, the roll handed to the decoder), results held must keep their value; non-trivial = a history with more "
+                "than one observation.  Kinds of number: end_time as Python float / int, numpy float64 / float32 / int64, 0-d float / integer "
+                "array; margins and booleans as numpy scalars; time_div as int8 / uint8 / int32 / int64; integer unit columns of width "
+                "i1 / u1 / i2 / u2 / i8 (with pitch and velocity columns of the same width: an all-int8 / all-uint8 array).")
     ctx.trusted = ["Coq 8.16.1 kernel incl. vm_compute",
                    "harness/props/c13.py: array builder, run-length coding of toarray(), Coq term printers",
                    "Model.C13 / Model.C13_Api boolean checkers check_pianoroll / check_pianoroll_asm / check_pc / check_decode / check_roundtrip / "
                    "check_roundtrip_api (dense comparison by runs; note lists up to order)",
                    "object stream: the reference note array of a Part / Score / PerformedPart / Performance is the object's own note_array() "
                    "(note_array_from_part_list for a group or a list of parts)",
+                   "history stream: the operation runner hist_step (in-place edits mirrored in the description of the state), Model.C13_Hist "
+                   "check_history / check_events",
                    "numpy/scipy toarray() and float32/float64 representation of dyadic rationals"]
     ctx.assumptions = ["time values are fed to the model as the exact rationals the float columns hold; cases where a float product is inexact and "
                        "the exact value is within 2^-30 of a rounding/comparison boundary are counted (near_tie_skipped) and not compared",
@@ -1329,7 +2023,7 @@ def run(ctx):
                        "velocity); not compared: sparse format, dtype, exception class, field order, ids, row order of the decoded array",
                        "pitches and velocities are Python/numpy integers, velocities 1..127 (i4 overflow and velocity 0 out of scope)"]
     global WITH_COQ
-    ok, why = ctx.coq_props(expect_min=50)
+    ok, why = ctx.coq_props(expect_min=56)
     WITH_COQ = bool(ok)
     quick = ctx.tier == "quick"
     rng = ctx.rng
@@ -1351,6 +2045,7 @@ def run(ctx):
     t0 = time.time()
     run_decode_stream(ctx, 400 if quick else 6000, 300 if quick else 3600)
     ctx.log("decode + round-trip streams %.1fs" % (time.time() - t0))
+    run_history_stream(ctx, 220 if quick else 3000, (5, 10) if quick else (5, 16))
     if not ok and not ctx.violations:
         ctx.violation("proof obligations of Props/C13.v no longer check: " + why, {"theorem_or_build": why}, no_input=True)
     ctx.extra["exhaustive"] = False
@@ -1386,4 +2081,19 @@ def replay(obj):
         got = run_impl_roundtrip(case)
         print("implementation:", json.dumps(got)[:3000])
         print("verdict       :", judge_roundtrip(case, got) or "agrees with the property")
+    elif kind == "history":
+        h = run_history(case["init"], case["ops"])
+        seen = dict()
+        for i, ob in h.log:
+            seen.setdefault(i, []).append(ob)
+        bad = dict()
+        for i, t in h.fail:
+            bad.setdefault(i, []).append(t)
+        for i, op in enumerate(case["ops"]):
+            print("op %d: %s" % (i + 1, json.dumps(op)[:600]))
+            for ob in seen.get(i, []):
+                print("     observed:", json.dumps(ob)[:1500])
+            for t in bad.get(i, []):
+                print("     WRONG   :", t)
+        print("verdict       :", ("%d observation(s) not what the current state requires" % len(h.fail)) if h.fail else "agrees with the property")
     return 0
